@@ -27,7 +27,7 @@ INFO = {
                    "name in any scope of the package; the emitted callee name, the recorded keys and the operand "
                    "expressions of a recorded call come from one cache lookup in operand order. Not decided: str() "
                    "formatting of exotic numeric literals.",
-    "decided": ["C05.dual-table", "C11.grade", "C11.registry-complete", "C11.dunder-agreement", "C11.python-siblings", "C11.coefficient-kind",
+    "decided": ["C05.dual-table", "C11.grade", "C11.do-compile", "C11.registry-complete", "C11.dunder-agreement", "C11.python-siblings", "C11.coefficient-kind",
                 "C11.names", "C11.emission-pairing"],
     "not_decided": ["formatting of non-literal numeric operands via str() inside emitted source (value dependent)",
                     "by-name resolution at call time relies on C09.name-injective"],
@@ -84,7 +84,7 @@ def _eval_dunder(ctx, repo, cls, name, other):
         return ("raise", r.name)
 
 
-@rule("C11.dunder-agreement", props=["C11"], min_instances=15, mutants=[
+@rule("C11.dunder-agreement", props=["C11", "C04"], min_instances=15, mutants=[
     ("__or__ bound to op", ("taperecorder", "ip = __or__ = partialmethod", "ip = partialmethod")),
     ("__rshift__ bound to proj", [("taperecorder", "sw = __rshift__ = partialmethod", "sw = partialmethod"),
                                  ("taperecorder", "proj = __matmul__ = partialmethod", "proj = __matmul__ = __rshift__ = partialmethod")]),
@@ -665,3 +665,74 @@ def check_emission(ctx, repo):
 def emission_pairing(ctx):
     """Emitted callee name, recorded keys and operand expressions come from one lookup, in operand order."""
     check_emission(ctx, ctx.repo)
+
+
+# --------------------------------------------------------------------------- do_compile template
+@rule("C11.do-compile", props=["C11", "C09"], min_instances=2, mutants=[
+    ("compiled function lists its parameters in reverse", ("codegen", "    funcstr = f\"def {funcname}({', '.join(t.expr for t in tapes)}):\"", "    funcstr = f\"def {funcname}({', '.join(t.expr for t in reversed(tapes))}):\"")),
+    ("compiled function returns the recorder of the first argument", ("codegen", "        funcstr += f\"    return {res.expr}\"", "        funcstr += f\"    return {tapes[0].expr}\"")),
+    ("compiled in a private namespace", ("codegen", "    exec(c, namespace, funclocals)\n    # mtime has to be None or else linecache.checkcache will remove it\n    linecache.cache[filename] = (len(funcstr), None, funcstr.splitlines(True), filename) # type: ignore\n\n    func = funclocals[funcname]\n    return CodegenOutput(\n        res.keys()", "    exec(c, {}, funclocals)\n    # mtime has to be None or else linecache.checkcache will remove it\n    linecache.cache[filename] = (len(funcstr), None, funcstr.splitlines(True), filename) # type: ignore\n\n    func = funclocals[funcname]\n    return CodegenOutput(\n        res.keys()")),
+])
+def do_compile_rule(ctx):
+    """do_compile emits `def name(<recorder names in order>): return <recorded expression>`, executes it in the
+    algebra's name space (where the recorded callee names are resolved) and returns the recorded keys."""
+    from ..absint import PyFunc
+    from ..symenv import rep_algebra
+    repo = ctx.repo
+    q = "codegen.do_compile"
+    fn = ctx.func(q)
+    for label, result in (("recorder result", None), ("plain string result", "a[0] * 2")):
+        c = f"{q}#{label}"
+        numspace = {"marker": "NUMSPACE"}
+        alg = rep_algebra(3, extra_attrs={"numspace": numspace})
+        tapes = [Obj("TapeRecorder", {"algebra": alg, "expr": n, "_keys": k, "type_number": 7 + i}, {"keys": lambda k=k: k})
+                 for i, (n, k) in enumerate((("a", (1, 2)), ("b", (4,))))]
+        res = Obj("TapeRecorder", {"algebra": alg, "expr": "gp_1(a, b)", "_keys": (5, 6)}, {"keys": lambda: (5, 6)}) if result is None else result
+        codegen = Obj("function", {"__name__": "user_fn"}, call=lambda *a: res)
+        sources, execs = [], []
+        it = make_interp(repo)
+        it.algebra = alg
+
+        def compile_(src, filename, mode):
+            sources.append(src)
+            return Obj("code", {"source": src})
+
+        def exec_(code, g=None, l=None):
+            execs.append(g)
+            tree = ast.parse(code.attrs["source"])
+            for n in tree.body:
+                if isinstance(n, ast.FunctionDef) and isinstance(l, dict):
+                    l[n.name] = Obj("function", {"__name__": n.name, "source": code.attrs["source"]})
+        it.builtins["compile"] = PyFunc(compile_, "compile", True)
+        it.builtins["exec"] = PyFunc(exec_, "exec", True)
+        it.standins["linecache"] = Obj("module:linecache", {"cache": {}})
+        try:
+            out = it.run(q, [codegen] + tapes)
+        except NoValue as exc:
+            raise Unknown(c, str(exc), fn)
+        if out[0] == "raise" or not sources:
+            ctx.violation(c, f"do_compile {out[0]}s {out[1]!r} without emitting source", fn)
+            continue
+        try:
+            tree = ast.parse(sources[-1]).body[0]
+        except SyntaxError:
+            ctx.violation(c, f"emitted source does not parse: {sources[-1]!r}", fn)
+            continue
+        problems = []
+        params_ = [a.arg for a in tree.args.args]
+        if params_ != ["a", "b"]:
+            problems.append(f"parameters {params_}, expected the recorder names in argument order ['a', 'b']")
+        ret = un(tree.body[-1].value) if isinstance(tree.body[-1], ast.Return) else None
+        want_ret = "gp_1(a, b)" if result is None else "(a[0] * 2,)"
+        if ret is None or ret.replace(" ", "") != want_ret.replace(" ", ""):
+            problems.append(f"returns {ret!r}, expected the recorded expression {want_ret!r}")
+        if not execs or execs[-1] is not numspace:
+            problems.append("the source is not executed in the algebra's name space, so the recorded callee names cannot be resolved")
+        keys = out[1].attrs.get("keys_out") if isinstance(out[1], Obj) else None
+        want_keys = (5, 6) if result is None else (0,)
+        if keys is None or tuple(keys) != want_keys:
+            problems.append(f"returns keys {keys!r}, expected {want_keys!r}")
+        if problems:
+            ctx.violation(c, "; ".join(problems) + f" | emitted: {sources[-1]!r}", fn)
+        else:
+            ctx.ok(c, fn, emitted=sources[-1])
